@@ -94,6 +94,7 @@ func c17R1Auth(c *Ctx) {
 		return
 	}
 	rcalls := c13CallsToFn(Do, RW)
+	senders := map[*ssa.Function]bool{}
 	pairs := 0
 	for i, s1 := range sends {
 		for j, s2 := range sends {
@@ -118,9 +119,16 @@ func c17R1Auth(c *Ctx) {
 				}
 			}
 			ok := MustPassBetween(s1.(ssa.Instruction), s2.(ssa.Instruction), cutR)
-			if g := StaticCallee(s2); !ok && g != nil && inModule(g) && len(c13CallsToFn(g, RW)) > 0 {
-				c.Undecided(RA, fmt.Sprintf("%s|send#%d→send#%d", dn, i+1, j+1), s2.Pos(), "the second send goes through helper "+FnName(g)+", which rewinds the body itself; not followed")
-				continue
+			if g := StaticCallee(s2); !ok && g != nil && inModule(g) && len(g.Blocks) > 0 {
+				// the second send goes through a helper: fine when the helper itself rewinds what it sends, on every path, before sending
+				if okH, why := c17RewindingSender(g, RW, 2); okH {
+					senders[g] = true
+					c.OK(RA, fmt.Sprintf("%s|send#%d→send#%d", dn, i+1, j+1), s2.Pos(), "the second send goes through "+FnName(g)+", which on every path rewinds the request it sends before sending it")
+					continue
+				} else if len(c13CallsToFn(g, RW)) > 0 {
+					c.Violation(RA, fmt.Sprintf("%s|send#%d→send#%d", dn, i+1, j+1), s2.Pos(), "the second send goes through helper "+FnName(g)+", which does not rewind the request it sends on every path: "+why)
+					continue
+				}
 			}
 			c.Check(RA, fmt.Sprintf("%s|send#%d→send#%d", dn, i+1, j+1), s2.Pos(), ok,
 				ifelse(ok, "every path between the two sends passes the success edge of the rewind helper applied to the request sent second",
@@ -133,6 +141,16 @@ func c17R1Auth(c *Ctx) {
 	for n, r := range rcalls {
 		res := ErrFlow(r, ErrFlowOpts{})
 		c.Check(RA, fmt.Sprintf("%s|rewind#%d-error-returned", dn, n+1), r.Pos(), res.OK, res.How+res.Detail)
+	}
+	for g := range senders {
+		for n, r := range c13CallsToFn(g, RW) {
+			res := ErrFlow(r, ErrFlowOpts{})
+			c.Check(RA, fmt.Sprintf("%s|rewind#%d-error-returned", FnName(g), n+1), r.Pos(), res.OK, res.How+res.Detail)
+		}
+		for _, hc := range c13CallsToFn(Do, g) { // the helper's failure is Do's failure
+			res := ErrFlow(hc, ErrFlowOpts{})
+			c.Check(RA, fmt.Sprintf("%s|%s-error-returned", dn, FnName(g)), hc.Pos(), res.OK, res.How+res.Detail)
+		}
 	}
 
 	// the helper
@@ -208,6 +226,39 @@ func c17R1Auth(c *Ctx) {
 		okInst = false
 	}
 	c.Check(RH, rn+"|GetBody-error-returned", gb.Pos(), okInst, ifelse(okInst, "a failing GetBody() makes the helper fail: nil is returned only over GetBody()'s nil-error edge", "the helper can report success although GetBody() failed: "+res.Detail))
+}
+
+// c17RewindingSender: every send in g is preceded, on every path from g's
+// entry, by the success edge of the rewind helper applied to the very request
+// being sent (or goes through another rewinding sender).
+func c17RewindingSender(g *ssa.Function, RW *ssa.Function, depth int) (bool, string) {
+	sends := c13SendSites(g)
+	if len(sends) == 0 {
+		return false, "it sends nothing"
+	}
+	rcalls := c13CallsToFn(g, RW)
+	for _, s := range sends {
+		if h := StaticCallee(s); h != nil && h != g && depth > 0 && inModule(h) && len(h.Blocks) > 0 {
+			if ok, _ := c17RewindingSender(h, RW, depth-1); ok {
+				continue
+			}
+		}
+		req := c13RequestArg(s)
+		ct := newCut()
+		for _, r := range rcalls {
+			if req == nil || !c17SameReq(r.Common().Args[0], req) {
+				continue
+			}
+			if e := ErrOf(r); e != nil {
+				nilE, _, _ := NilTests(g, Aliases(e))
+				ct.Edges(nilE...)
+			}
+		}
+		if len(ct.edges) == 0 || !MustPass(s.(ssa.Instruction), ct) {
+			return false, "a path reaches its send without a successful rewind of the request sent"
+		}
+	}
+	return true, ""
 }
 
 // ---------- RoundTrip ----------
@@ -373,6 +424,14 @@ func c17RoundTrip(c *Ctx) {
 	c.Check(R2, rn+"|single-retry-loop", blockPos(L.Header), okExit, "no round trip is reachable after leaving the retry loop")
 
 	// --- R3: the pause
+	isReqCtx := func(v ssa.Value) bool {
+		for _, cr := range Roots(v) {
+			if cc, ok := cr.(*ssa.Call); ok && CalleeName(cc) == "(*net/http.Request).Context" && req[cc.Call.Args[0]] {
+				return true
+			}
+		}
+		return false
+	}
 	var sel *ssa.Select
 	AllInstrs(RT, func(in ssa.Instruction) {
 		if s, ok := in.(*ssa.Select); ok && L.Contains(s) {
@@ -380,42 +439,22 @@ func c17RoundTrip(c *Ctx) {
 		}
 	})
 	if sel == nil {
-		c.Violation(R3, rn+"|pause-is-select", P.Pos(), "no select between policy decision and next round trip: the pause cannot be cancelled")
+		// the pause may live in a helper pause(ctx, d) error called between the policy decision and the next round trip
+		for _, k := range Calls(RT, func(string) bool { return true }) {
+			h := StaticCallee(k)
+			if _, isCall := k.(*ssa.Call); !isCall || h == nil || !inModule(h) || len(h.Blocks) == 0 || !L.Contains(k.(ssa.Instruction)) {
+				continue
+			}
+			if c17PauseViaHelper(c, R3, rn, RT, k, h, Pi, Si, isReqCtx, durAl) {
+				return
+			}
+		}
+		c.Violation(R3, rn+"|pause-is-select", P.Pos(), "no select (here or in a pause helper returning the context's error) between policy decision and next round trip: the pause cannot be cancelled")
 		return
 	}
 	ok = sel.Blocking && MustPassBetween(Pi, Si, newCut().Instr(sel))
 	c.Check(R3, rn+"|pause-before-resend", sel.Pos(), ok, ifelse(ok, "every path from the policy decision to the next round trip executes the blocking select", "a retry can be sent without pausing"))
-	doneIdx, timerIdx := -1, -1
-	var timerCall *ssa.Call
-	for i, st := range sel.States {
-		if st.Dir != types.RecvOnly {
-			continue
-		}
-		for _, rt := range Roots(st.Chan) {
-			switch u := rt.(type) {
-			case *ssa.Call:
-				if CalleeName(u) == "(context.Context).Done" {
-					// the context is the request's
-					for _, cr := range Roots(u.Call.Value) {
-						if cc, ok := cr.(*ssa.Call); ok && CalleeName(cc) == "(*net/http.Request).Context" && req[cc.Call.Args[0]] {
-							doneIdx = i
-						}
-					}
-				}
-				if CalleeName(u) == "time.After" {
-					timerIdx, timerCall = i, u
-				}
-			case *ssa.UnOp:
-				if fa, ok := u.X.(*ssa.FieldAddr); ok && c13IsNamed(fa.X.Type(), "time", "Timer") {
-					for _, tr := range Roots(fa.X) {
-						if tc, ok := tr.(*ssa.Call); ok && CalleeName(tc) == "time.NewTimer" {
-							timerIdx, timerCall = i, tc
-						}
-					}
-				}
-			}
-		}
-	}
+	doneIdx, timerIdx, timerCall := c17SelectShape(sel, isReqCtx)
 	okSel := doneIdx >= 0 && timerIdx >= 0 && len(sel.States) == 2
 	c.Check(R3, rn+"|select-on-timer-and-ctx", sel.Pos(), okSel, ifelse(okSel, "the pause is a select over a timer and the request context's Done()", "the pause is not a select over exactly a timer and req.Context().Done()"))
 	if timerCall != nil {
@@ -438,6 +477,135 @@ func c17RoundTrip(c *Ctx) {
 			c.Check(R3, rn+"|only-timer-continues", sel.Pos(), okOnly, "only the timer case leads to the next round trip")
 		}
 	}
+}
+
+// c17SelectShape: which state of the select receives from ctx.Done() (ctx
+// accepted by isCtx) and which from a timer (time.NewTimer(d).C / time.After(d)).
+func c17SelectShape(sel *ssa.Select, isCtx func(ssa.Value) bool) (doneIdx, timerIdx int, timerCall *ssa.Call) {
+	doneIdx, timerIdx = -1, -1
+	for i, st := range sel.States {
+		if st.Dir != types.RecvOnly {
+			continue
+		}
+		for _, rt := range Roots(st.Chan) {
+			switch u := rt.(type) {
+			case *ssa.Call:
+				if CalleeName(u) == "(context.Context).Done" && isCtx(u.Call.Value) {
+					doneIdx = i
+				}
+				if CalleeName(u) == "time.After" {
+					timerIdx, timerCall = i, u
+				}
+			case *ssa.UnOp:
+				if fa, ok := u.X.(*ssa.FieldAddr); ok && c13IsNamed(fa.X.Type(), "time", "Timer") {
+					for _, tr := range Roots(fa.X) {
+						if tc, ok := tr.(*ssa.Call); ok && CalleeName(tc) == "time.NewTimer" {
+							timerIdx, timerCall = i, tc
+						}
+					}
+				}
+			}
+		}
+	}
+	return
+}
+
+// c17PauseViaHelper: k = h(ctx, d) is the cancellable pause: h blocks in a
+// select over a timer of its duration parameter and its context parameter's
+// Done(), returns the context's error in the latter case and nil after the
+// timer; the caller passes the request context and the policy's duration,
+// returns h's error and goes on only over its nil edge.  Reports the five R3
+// obligations and returns true when h has that role (a select on its params).
+func c17PauseViaHelper(c *Ctx, R3, rn string, RT *ssa.Function, k ssa.CallInstruction, h *ssa.Function, Pi, Si ssa.Instruction, isReqCtx func(ssa.Value) bool, durAl map[ssa.Value]bool) bool {
+	var ctxP, durP *ssa.Parameter
+	for _, p := range h.Params {
+		if c13IsNamed(p.Type(), "context", "Context") {
+			ctxP = p
+		}
+		if c13IsNamed(p.Type(), "time", "Duration") {
+			durP = p
+		}
+	}
+	var sel *ssa.Select
+	AllInstrs(h, func(in ssa.Instruction) {
+		if s, ok := in.(*ssa.Select); ok {
+			sel = s
+		}
+	})
+	if ctxP == nil || durP == nil || sel == nil {
+		return false
+	}
+	ctxAl, durPAl := Aliases(ctxP), Aliases(durP)
+	doneIdx, timerIdx, timerCall := c17SelectShape(sel, func(v ssa.Value) bool { return ctxAl[v] })
+	ki := k.(ssa.Instruction)
+	var ctxArg, durArg ssa.Value
+	for i, p := range h.Params {
+		if p == ctxP {
+			ctxArg = k.Common().Args[i]
+		}
+		if p == durP {
+			durArg = k.Common().Args[i]
+		}
+	}
+	hn := FnName(h)
+	okPause := sel.Blocking && MustPassBetween(Pi, Si, newCut().Instr(ki))
+	for _, r := range Returns(h) { // every return of the helper lies behind the select
+		if !MustPass(r, newCut().Instr(sel)) {
+			okPause = false
+		}
+	}
+	c.Check(R3, rn+"|pause-before-resend", k.Pos(), okPause, ifelse(okPause, "every path from the policy decision to the next round trip calls "+hn+", which always blocks in its select", "a retry can be sent without pausing"))
+	okSel := doneIdx >= 0 && timerIdx >= 0 && len(sel.States) == 2 && ctxArg != nil && isReqCtx(ctxArg)
+	c.Check(R3, rn+"|select-on-timer-and-ctx", sel.Pos(), okSel, ifelse(okSel, "the pause helper selects over a timer and the Done() of the request context it is given", "the pause is not a select over exactly a timer and req.Context().Done()"))
+	okDur := timerCall != nil && durPAl[timerCall.Call.Args[0]] && durArg != nil && durAl[durArg]
+	c.Check(R3, rn+"|timer-is-policy-duration", k.Pos(), okDur, ifelse(okDur, "the helper's timer runs for its duration parameter, which is the duration the policy returned", "the pause is not the duration computed (and clamped) by the policy"))
+	// cancellation: the helper's Done case returns the context's error; the caller returns it and sends nothing more
+	errIdx := ErrResultIndex(h.Signature)
+	okCancel := errIdx >= 0 && doneIdx >= 0
+	if okCancel {
+		if e, found := selectCaseEdge(sel, doneIdx); found {
+			if a := findNilReturnFrom(h, e, errIdx, newCut(), map[ssa.Value]bool{}); a != nil && !isCtxErr(a.Val) {
+				okCancel = false
+			}
+		} else {
+			okCancel = false
+		}
+		kerr := ErrOf(k)
+		if kerr == nil {
+			okCancel = false
+		} else {
+			nilE, nonNilE, _ := NilTests(RT, Aliases(kerr))
+			if len(nilE) == 0 || !MustPassBetween(ki, Si, newCut().Edges(nilE...)) {
+				okCancel = false
+			}
+			for _, ne := range nonNilE {
+				if reach(ne.To, 0, Si, nil) {
+					okCancel = false
+				}
+			}
+			if r := ErrFlow(k, ErrFlowOpts{}); !r.OK {
+				okCancel = false
+			}
+		}
+	}
+	c.Check(R3, rn+"|cancel-ends-call", k.Pos(), okCancel, ifelse(okCancel, "on ctx.Done() the helper returns the context's error, which the caller returns without a further round trip", "cancellation during the pause is not reported: the helper does not return the context's error or the caller sends another request"))
+	okOnly := timerIdx >= 0
+	if e, found := selectCaseEdge(sel, timerIdx); found && okOnly && errIdx >= 0 {
+		// a nil result only via the timer case
+		ctxErrs := map[ssa.Value]bool{}
+		AllInstrs(h, func(in ssa.Instruction) {
+			if v, ok := in.(ssa.Value); ok && isCtxErr(v) {
+				ctxErrs[v] = true
+			}
+		})
+		if bad := c13SuccessEscapes(h, sel.Block(), instrIndex(sel)+1, newCut().Edges(e), ctxErrs); bad != nil {
+			okOnly = false
+		}
+	} else {
+		okOnly = false
+	}
+	c.Check(R3, rn+"|only-timer-continues", sel.Pos(), okOnly, "the helper returns nil only through the timer case")
+	return true
 }
 
 // ---------- GenericPolicy.Retry ----------
